@@ -187,59 +187,54 @@ Definition op_ok (o : op) : Prop :=
 (* ------------------------------------------------------------------ *)
 (* concurrent use: every exported method is  mu.Lock(); body; mu.Unlock() *)
 (* ------------------------------------------------------------------ *)
-(* A thread is a program (list of operations still to perform) and a phase.
-   A schedule is a list of thread ids; scheduling a thread lets it take one
-   step: acquire the mutex (possible only when it is free - otherwise the
-   thread stays blocked and nothing happens), run the method body, release.
-   The body is the only place where the shared state and the destination are
-   touched.  What this assumes: sync.Mutex provides mutual exclusion and its
-   Unlock happens-before the next Lock (Go memory model), and the bodies are
-   exactly what lies between Lock and the deferred Unlock in writer.go. *)
-Inductive phase := Idle | Locked | Ran.
-
-Record thread := { th_prog : list op; th_phase : phase }.
-
+(* A thread is a program: the list of operations it still has to perform, the
+   head being the one in progress.  A schedule is a list of thread ids;
+   scheduling thread t lets it take one step of its current method:
+     - w.mu is free: Lock() succeeds (the acquisition order is recorded);
+     - t holds w.mu and has not run the body: the whole body runs - the only
+       place where the shared state and the destination are touched;
+     - t holds w.mu and the body has run: the deferred Unlock(), the method returns;
+     - another thread holds w.mu: t stays blocked in Lock(), nothing happens.
+   What this assumes: sync.Mutex provides mutual exclusion and its Unlock
+   happens-before the next Lock (Go memory model), so that the state seen by a
+   body is the state left by the previous holder; and the bodies are exactly what
+   lies between w.mu.Lock() and the deferred w.mu.Unlock() in writer.go
+   (WriteLevel, Trigger, Close; trigger() is only called from them). *)
 Record cstate := {
   cs_state : tstate;
-  cs_holder : option nat;                 (* who holds w.mu *)
-  cs_threads : list thread;
+  cs_lock : option (nat * bool);             (* holder of w.mu; has its body run? *)
+  cs_progs : list (list op);
   cs_log : list (nat * list dcall * mret);   (* per completed body: thread, destination calls, result *)
-  cs_acq : list (nat * op)                (* lock-acquisition order *)
+  cs_acq : list (nat * op)                   (* lock-acquisition order *)
 }.
 
 Definition cstep (c : tcfg) (st : cstate) (t : nat) : cstate :=
-  match nth_error (cs_threads st) t with
-  | None => st
-  | Some th =>
-      match th_phase th, th_prog th with
-      | Idle, o :: _ =>
-          match cs_holder st with
-          | Some _ => st                    (* blocked in Lock() *)
-          | None =>
-              {| cs_state := cs_state st; cs_holder := Some t;
-                 cs_threads := upd (cs_threads st) t {| th_prog := th_prog th; th_phase := Locked |};
-                 cs_log := cs_log st; cs_acq := cs_acq st ++ [(t, o)] |}
-          end
-      | Locked, o :: _ =>
-          let '(s1, calls, r) := step c (cs_state st) o in
-          {| cs_state := s1; cs_holder := cs_holder st;
-             cs_threads := upd (cs_threads st) t {| th_prog := th_prog th; th_phase := Ran |};
-             cs_log := cs_log st ++ [(t, calls, r)]; cs_acq := cs_acq st |}
-      | Ran, _ :: rest =>
-          {| cs_state := cs_state st; cs_holder := None;
-             cs_threads := upd (cs_threads st) t {| th_prog := rest; th_phase := Idle |};
-             cs_log := cs_log st; cs_acq := cs_acq st |}
-      | _, _ => st
+  match nth_error (cs_progs st) t with
+  | Some (o :: rest) =>
+      match cs_lock st with
+      | None =>
+          {| cs_state := cs_state st; cs_lock := Some (t, false); cs_progs := cs_progs st;
+             cs_log := cs_log st; cs_acq := cs_acq st ++ [(t, o)] |}
+      | Some (t', ran) =>
+          if Nat.eqb t' t then
+            if ran then
+              {| cs_state := cs_state st; cs_lock := None; cs_progs := upd (cs_progs st) t rest;
+                 cs_log := cs_log st; cs_acq := cs_acq st |}
+            else
+              let '(s1, calls, r) := step c (cs_state st) o in
+              {| cs_state := s1; cs_lock := Some (t, true); cs_progs := cs_progs st;
+                 cs_log := cs_log st ++ [(t, calls, r)]; cs_acq := cs_acq st |}
+          else st
       end
+  | _ => st
   end.
 
 Definition cinit (sc : script) (progs : list (list op)) : cstate :=
-  {| cs_state := init sc; cs_holder := None;
-     cs_threads := map (fun p => {| th_prog := p; th_phase := Idle |}) progs;
-     cs_log := []; cs_acq := [] |}.
+  {| cs_state := init sc; cs_lock := None; cs_progs := progs; cs_log := []; cs_acq := [] |}.
 
 Definition crun (c : tcfg) (sc : script) (progs : list (list op)) (sched : list nat) : cstate :=
   fold_left (cstep c) sched (cinit sc progs).
 
-Definition finished (st : cstate) : Prop :=
-  Forall (fun th => th_prog th = [] /\ th_phase th = Idle) (cs_threads st).
+(* the operations thread t performed, in the order it acquired the lock for them *)
+Definition ops_of (t : nat) (acq : list (nat * op)) : list op :=
+  map snd (filter (fun x => Nat.eqb (fst x) t) acq).
